@@ -328,6 +328,17 @@ theorem trackToENU_frame (w w' : World α) (ti : Nat) (arg : Val) (h : w.trackTo
   unfold World.trackToENU at h
   frame_tac h
 
+theorem trackToENUIfNeeded_frame (w w' : World α) (ti : Nat) (h : w.trackToENUIfNeeded T ti = .ok w') :
+    ∃ l, w'.heap = w.heap ++ l := by
+  unfold World.trackToENUIfNeeded at h
+  simp only [bind, Except.bind] at h
+  repeat' split at h
+  all_goals first
+    | (cases h; done)
+    | (cases h; exact ⟨[], by simp⟩)
+    | (obtain ⟨l, hl⟩ := trackToENU_frame T _ w' ti _ h
+       exact ⟨_, by rw [hl, List.append_assoc]⟩)
+
 theorem call_frame (w w' : World α) (i : Nat) (m : Meth) (args : List Val) (h : w.call T i m args = .ok w') :
     ∃ l, w'.heap = w.heap ++ l := by
   unfold World.call at h
@@ -356,6 +367,7 @@ theorem step_frame (w w' : World α) (op : Op α) (h : w.step T op = .ok w') (ho
       | int n => exact trackToProj_frame T w w' ti n h
       | none => simp [World.step] at h
       | ref i => simp [World.step] at h
+  | trackENUIf ti => exact trackToENUIfNeeded_frame T w w' ti h
 
 omit [Add α] [Sub α] [Mul α] [Div α] [Neg α] [OfScientific α] in
 /-- an in-place update changes the one coordinate of the one object and nothing else; tracks are untouched -/
@@ -769,6 +781,36 @@ theorem trackToENU_sim (w : World α) (ti : Nat) (t : HTrack) (ht : w.tracks[ti]
             simp only [Track.toENU, hap, bind]
             rw [← hap]
             exact hc
+
+
+theorem trackToENUIfNeeded_sim (w : World α) (ti : Nat) (t : HTrack) (ht : w.tracks[ti]? = some t) (a : Track α)
+    (hA : Abs w.heap t a) : SimRes ti (w.trackToENUIfNeeded T ti) (a.toENUIfNeeded T) := by
+  obtain ⟨ak, apts, abase⟩ := a
+  have hgt : getTrack w ti = .ok t := by simp [getTrack, ht]
+  rcases Abs_first w.heap t ak apts abase hA with ⟨hpts, hap⟩ | ⟨p, ps, o, v, vs, hpts, hap, h1, hok, hv⟩
+  · subst hap
+    simp only [World.trackToENUIfNeeded, bind, hgt, ok_bind, trackKind, hpts, Track.toENUIfNeeded, SimRes]
+    rfl
+  · have htk : trackKind w.heap t = .ok ak := by
+      simp only [trackKind, hpts, deref, h1, Except.map, hok]
+    cases ak with
+    | geo =>
+      have hd : deref w.heap p = .ok o := by simp [deref, h1]
+      have hA1 : Abs (w.heap ++ [⟨o.kind, o.v⟩]) t ⟨.geo, apts, abase⟩ := Abs_append _ _ _ _ hA
+      have harg : valArg (w.heap ++ [⟨o.kind, o.v⟩]) (.ref w.heap.length) = some (some (.pt (.geo v))) := by
+        simp only [valArg]
+        rw [List.getElem?_append_right (Nat.le_refl _)]
+        simp [objBase, hok, hv]
+      have := trackToENU_sim T ({ w with heap := w.heap ++ [⟨o.kind, o.v⟩] } : World α) ti t ht _ hA1 _ _ harg
+      simp only [World.trackToENUIfNeeded, bind, hgt, ok_bind, htk, hpts, hd, Track.toENUIfNeeded, hap]
+      rw [← hap]
+      exact this
+    | ecef =>
+      simp only [World.trackToENUIfNeeded, bind, hgt, ok_bind, htk, hpts, Track.toENUIfNeeded, hap, SimRes]
+      exact ⟨t, ht, by rw [← hap]; exact hA⟩
+    | enu =>
+      simp only [World.trackToENUIfNeeded, bind, hgt, ok_bind, htk, hpts, Track.toENUIfNeeded, hap, SimRes]
+      exact ⟨t, ht, by rw [← hap]; exact hA⟩
 
 
 /-! ### what a whole-track conversion to ENU binds to the track is new -/
